@@ -22,7 +22,6 @@ files per path for the life of the process).
 """
 from __future__ import annotations
 
-import json
 import os
 import re
 import shutil
@@ -89,7 +88,7 @@ def compose(parts, header=(), final_newline=True):
 class Picker:
     """Procedural choices for one scenario, a deterministic function of ONE Hypothesis-drawn integer (``seeds()``).
 
-    Why not one Hypothesis pick per choice: Hypothesis starts every run from the minimal example and favours small /
+    Why not one Hypothesis draw per choice: Hypothesis starts every run from the minimal example and favours small /
     boundary values, so with a dozen expensive cases per shard all 16 shards would begin with the same scenario and the
     'rare' options would be anything but rare.  The generated case itself (not the seed) is what is stored and replayed.
     """
@@ -330,15 +329,81 @@ def cli_opts(case):
     return args
 
 
+def _fork_mode():
+    """VERIF_CLI_FORK=1: exploration aid, NOT used by the registered commands.  The CLI is then run in a forked child of
+    the harness process (cwd changed in the child only, sys.std* replaced, SystemExit caught) instead of a fresh
+    interpreter: no interpreter start-up, so many seeds can be screened cheaply; anything it finds is re-run with real
+    subprocesses (a replay file) before it is believed."""
+    return os.environ.get("VERIF_CLI_FORK") == "1"
+
+
+def _cli_in_child(args, cwd, data, answer=None):
+    import io
+    import json
+    import logging
+    import traceback
+
+    out, err = io.StringIO(), io.StringIO()
+    rc = 0
+    try:
+        os.chdir(cwd)
+        sys.stdin = io.TextIOWrapper(io.BytesIO(data), encoding="utf-8")
+        sys.stdout, sys.stderr = out, err
+        sys.argv = ["sqlfluff"] + list(args)
+        logging.disable(logging.NOTSET)
+        import click
+
+        import sqlfluff.core.linter.discovery as disc
+        from sqlfluff.cli.commands import cli
+
+        # paths_from_path binds working_path=os.getcwd() at import time: give the child what a fresh process would have
+        d = list(disc.paths_from_path.__defaults__)
+        import inspect
+
+        names = [p.name for p in inspect.signature(disc.paths_from_path).parameters.values() if p.default is not p.empty]
+        d[names.index("working_path")] = os.getcwd()
+        disc.paths_from_path.__defaults__ = tuple(d)
+        if answer is not None:
+            click.getchar = lambda *a, **k: answer
+        try:
+            cli.main(args=list(args), prog_name="sqlfluff", standalone_mode=True)
+        except SystemExit as e:
+            rc = e.code if isinstance(e.code, int) else (0 if e.code is None else 1)
+    except BaseException:
+        traceback.print_exc(file=err)
+        rc = 1
+    return json.dumps([rc, out.getvalue(), err.getvalue()]).encode("utf-8")
+
+
 class CliJob:
     """``python -m sqlfluff <args>`` started in the background (cwd = project directory); ``result()`` waits.
     Several jobs of one case run side by side: they are independent processes working on separate project copies."""
 
-    def __init__(self, args, cwd, stdin=None):
+    def __init__(self, args, cwd, stdin=None, answer=None):
         if isinstance(stdin, str):
             stdin = stdin.encode("utf-8")
         data = stdin or b""
         assert len(data) < 60000, "stdin payload must fit in the pipe buffer"
+        self.p = None
+        if _fork_mode():
+            r, w = os.pipe()
+            sys.stdout.flush()
+            sys.stderr.flush()
+            pid = os.fork()
+            if pid == 0:
+                code = 0
+                try:
+                    os.close(r)
+                    payload = _cli_in_child(list(args), cwd, data, answer)
+                    with os.fdopen(w, "wb") as fh:
+                        fh.write(payload)
+                except BaseException:
+                    code = 3
+                finally:
+                    os._exit(code)
+            os.close(w)
+            self.pid, self.fd = pid, r
+            return
         r, w = os.pipe()
         try:
             os.write(w, data)
@@ -350,7 +415,27 @@ class CliJob:
         finally:
             os.close(r)
 
+    def kill(self):
+        if self.p is not None:
+            if self.p.poll() is None:
+                self.p.kill()
+        else:
+            try:
+                os.kill(self.pid, 9)
+            except OSError:
+                pass
+
     def result(self, timeout=300):
+        if self.p is None:
+            import json
+
+            with os.fdopen(self.fd, "rb") as fh:
+                raw = fh.read()
+            os.waitpid(self.pid, 0)
+            if not raw:
+                return -9, "", "forked CLI child died without reporting"
+            rc, so, se = json.loads(raw.decode("utf-8"))
+            return rc, so, se
         try:
             so, se = self.p.communicate(timeout=timeout)
         except subprocess.TimeoutExpired:
@@ -367,6 +452,8 @@ def run_cli(args, cwd, stdin=None, timeout=300):
 
 def run_cli_tty(args, cwd, keys=b"y", timeout=300):
     """Run the CLI with a pseudo-terminal as stdin (``fix --check`` reads its answer with click.getchar)."""
+    if _fork_mode():
+        return CliJob(args, cwd, None, answer=keys.decode()).result(timeout)
     import pty
     import select
     import time
